@@ -452,6 +452,8 @@ where
                         cases: per_worker.min(u32::MAX as u64) as u32,
                         failure_persistence: None,
                         max_shrink_iters: 20_000,
+                        // shrinking a session of thousands of calls is slow: minimality is worth 90 s, not more
+                        max_shrink_time: 90_000,
                         rng_seed: RngSeed::Fixed(wseed),
                         max_global_rejects: 1_000_000,
                         ..Config::default()
